@@ -501,7 +501,14 @@ def shares_writer_deleter(ops):
 
 
 def finding_key(ops, reasons):
-    if len(ops) != 2 or not set(reasons) <= COUNT_REASONS:
+    """row 8's shape: a concurrent group of a writer and a deleter (or of two deleters: the batch-delete pre-count) after which
+    the counted usage differs from the live count.  More live documents than the limit means just that (the count never exceeds
+    the limit), and then no admission-respecting order explains the census either."""
+    rs = set(reasons)
+    over = "more live documents than the limit" in rs
+    if len(ops) != 2 or not rs & COUNT_REASONS:
+        return None
+    if not rs <= COUNT_REASONS | ({"live documents not explained by any order of the requests"} if over else set()):
         return None
     if shares_writer_deleter(ops):
         return KEY_ROW8
